@@ -426,6 +426,128 @@ def run_mini(ctx, rep):
 
 
 # ---------------------------------------------------------------------------
+# I7: instances are isolated from each other (no state shared through the class
+# or the module): two objects fed alternately conclude what each concludes alone
+
+def _chunks(data, cuts):
+    pts = [0] + [c for c in cuts if 0 < c < len(data)] + [len(data)]
+    return [data[a:b] for a, b in zip(pts, pts[1:])]
+
+
+def _solo(system, data, cuts):
+    obj = system.new(data)
+    p = 0
+    try:
+        for c in _chunks(data, cuts):
+            system.feed(obj, data, p, p + len(c))
+            p += len(c)
+        system.finish(obj)
+        return system.verdict(obj)
+    except Exception as e:
+        return ('error', type(e).__name__)
+
+
+def _interleaved(system, da, ca, db, cb, order):
+    """order: tuple of 'a'/'b' steps (a merge of the two chunk sequences)."""
+    oa, ob = system.new(da), system.new(db)
+    cha, chb = _chunks(da, ca), _chunks(db, cb)
+    pa = pb = ia = ib = 0
+    ea = eb = None
+    for who in order:
+        if who == 'a':
+            if ea is None:
+                try:
+                    system.feed(oa, da, pa, pa + len(cha[ia]))
+                except Exception as e:
+                    ea = ('error', type(e).__name__)
+            pa += len(cha[ia])
+            ia += 1
+        else:
+            if eb is None:
+                try:
+                    system.feed(ob, db, pb, pb + len(chb[ib]))
+                except Exception as e:
+                    eb = ('error', type(e).__name__)
+            pb += len(chb[ib])
+            ib += 1
+    out = []
+    for o, e in ((oa, ea), (ob, eb)):
+        if e is not None:
+            out.append(e)
+            continue
+        try:
+            system.finish(o)
+            out.append(system.verdict(o))
+        except Exception as ex:
+            out.append(('error', type(ex).__name__))
+    return out
+
+
+def _merges(na, nb):
+    import itertools
+    for pos in itertools.combinations(range(na + nb), na):
+        yield tuple('a' if i in pos else 'b' for i in range(na + nb))
+
+
+def isolation_pairs(seed):
+    imgs = {im.name: im for im in F.wellformed(seed, False)}
+    own = {'qcow2': ['qcow2-v3', 'qcow2-v2'], 'vhd': ['vhd'], 'vdi': ['vdi'], 'qed': ['qed'],
+           'iso': ['iso'], 'gpt': ['gpt'], 'luks': ['luks-v1'], 'vmdk': ['vmdk', 'vmdk-footer'],
+           'raw': ['raw-zeros-1024'], 'vhdx': ['vhdx']}
+    others = [B.raw('zeros', 600).data, B.raw('random', 100, seed).data,
+              B.qcow2(size=7 << 20, length=520).data]
+    for sysname in ALL + ['wrapper']:
+        firsts = []
+        for k, names in own.items():
+            if sysname in (k, 'wrapper'):
+                firsts += [imgs[n].data for n in names if n in imgs]
+        for da in firsts[:4] if sysname == 'wrapper' else firsts:
+            for db in others:
+                yield sysname, da, db
+
+
+def _isolation_job(job):
+    sysname, da, db = job
+    from vlib.mc import stream as S
+    system = S.WrapperSystem() if sysname == 'wrapper' else S.InspectorSystem(sysname)
+    ca = [64, 512] if len(da) < 100000 else [64, 262144]
+    cb = [64, 512]
+    sa = _solo(system, da, ca)
+    sb = _solo(system, db, cb)
+    na, nb = len(_chunks(da, ca)), len(_chunks(db, cb))
+    out = {'runs': 0, 'problem': None}
+    for order in _merges(na, nb):
+        got = _interleaved(system, da, ca, db, cb, order)
+        out['runs'] += 1
+        if got != [sa, sb] and out['problem'] is None:
+            out['problem'] = {'system': sysname, 'order': ''.join(order),
+                              'solo': [repr(sa), repr(sb)], 'interleaved': [repr(g) for g in got],
+                              'a': pack(da), 'b': pack(db), 'ca': ca, 'cb': cb}
+    # and the first stream once more, alone, after everything else ran
+    again = _solo(system, da, ca)
+    if again != sa and out['problem'] is None:
+        out['problem'] = {'system': sysname, 'order': 'a-alone-again',
+                          'solo': [repr(sa)], 'interleaved': [repr(again)],
+                          'a': pack(da), 'b': pack(db), 'ca': ca, 'cb': cb}
+    return out
+
+
+def run_isolation(ctx, rep):
+    jobs = list(isolation_pairs(ctx.seed))
+    for out in par.pmap(_isolation_job, jobs):
+        rep.count('isolation_executions', out['runs'])
+        rep.count('evaluations', out['runs'])
+        rep.count('transitions', out['runs'] * 6)
+        rep.count('traces_validated_against_impl', out['runs'])
+        pr = out['problem']
+        if pr:
+            rep.fail('I7-instances-not-isolated:%s' % pr['system'],
+                     {'system': pr['system'], 'schedule': pr['order'], 'alone': pr['solo'],
+                      'interleaved': pr['interleaved']},
+                     {'isolation': True, 'system': pr['system'], 'a': pr['a'], 'b': pr['b'],
+                      'ca': pr['ca'], 'cb': pr['cb'], 'order': pr['order']})
+    rep.notes['isolation'] = {'pairs': len(jobs), 'schedules_per_pair': 'all merges of the two chunk sequences (<= 20)'}
+
 
 def run(ctx):
     global _IMAGES
@@ -437,7 +559,7 @@ def run(ctx):
         for sysname in ALL + ['wrapper']:
             jobs.append((idx, sysname, 'cand', ctx.seed, ctx.thorough))
         # all byte positions as cuts: small streams, bare inspectors
-        lim = 1536 if ctx.thorough else 0
+        lim = 1536 if ctx.thorough else 130
         if 0 < len(im.data) <= lim:
             own = im.fmt if im.fmt in ALL else 'raw'
             for sysname in sorted({own, 'luks', 'gpt'} - {'vmdk'}):
@@ -485,17 +607,27 @@ def run(ctx):
         elif sigs:
             rep.count('signature_true_but_single_verdict')
     # abstraction check: candidate cuts and all positions see the same verdicts
+    disagreements = []
     for key, modes in verdict_sets.items():
         if 'all' in modes and 'cand' in modes:
             rep.count('abstraction_checks')
             if len(modes['all']) == 1 and modes['all'] != modes['cand']:
-                raise RuntimeError('candidate-cut abstraction disagrees with '
-                                   'all-positions run on %r' % (key,))
+                disagreements.append(key)
             if len(modes['all']) > 1 and len(modes['cand']) == 1:
                 rep.count('abstraction_misses')
                 rep.notes.setdefault('abstraction_misses', []).append(
                     _IMAGES[key[0]].name + '/' + key[1])
     run_mini(ctx, rep)
+    run_isolation(ctx, rep)
+    if disagreements:
+        # Two complete explorations of the same (stream, inspector) came to
+        # different single verdicts. With a deterministic, instance-local
+        # implementation that is impossible; it is a symptom of state shared
+        # between objects (reported by I7) - or of a broken harness.
+        rep.count('abstraction_disagreements', len(disagreements))
+        if not rep.violations:
+            raise RuntimeError('candidate-cut abstraction disagrees with all-positions '
+                               'run on %r and no oracle explains it' % (disagreements[:3],))
     rep.count('images', len(_IMAGES))
     for im in (_IMAGES[0], _IMAGES[len(_IMAGES) // 2], _IMAGES[-1]):
         rep.sample({'image': im.name, 'len': len(im.data),
@@ -510,7 +642,7 @@ def run(ctx):
     rep.notes['bounds'] = {
         'systems': ALL + ['wrapper'],
         'max_cuts': CAPS_THOROUGH if ctx.thorough else CAPS_QUICK,
-        'all_positions_up_to_bytes': 1536 if ctx.thorough else 0,
+        'all_positions_up_to_bytes': 1536 if ctx.thorough else 130,
         'streams': len(_IMAGES)}
     rep.notes['assumptions'] = [
         'eat_chunk/finish/queries are deterministic functions of instance state (merging)',
@@ -520,6 +652,18 @@ def run(ctx):
 
 def replay(payload):
     from vlib.mc import stream as S
+    if payload.get('isolation'):
+        system = (S.WrapperSystem() if payload['system'] == 'wrapper'
+                  else S.InspectorSystem(payload['system']))
+        da, db = unpack(payload['a']), unpack(payload['b'])
+        ca, cb = payload['ca'], payload['cb']
+        sa, sb = _solo(system, da, ca), _solo(system, db, cb)
+        if payload['order'] == 'a-alone-again':
+            again = _solo(system, da, ca)
+            return {'violates': again != sa, 'first': repr(sa), 'again': repr(again)}
+        got = _interleaved(system, da, ca, db, cb, tuple(payload['order']))
+        return {'violates': got != [sa, sb], 'alone': [repr(sa), repr(sb)],
+                'interleaved': [repr(g) for g in got]}
     if payload.get('mini'):
         system = MiniSystem()
         data = bytes.fromhex(payload['data_hex'])
@@ -530,7 +674,7 @@ def replay(payload):
     obs = []
     bad_regions = impure = revised = False
     for path in payload['paths']:
-        obj, trace = S.replay_path(system, data, path)
+        obj, trace = S.replay_path(system, data, path, queries=True)
         last = trace[-1] if trace else {}
         pos = max([x for x in path if isinstance(x, int)] or [0])
         for i in system.inspectors(obj):
